@@ -228,6 +228,15 @@ def run(pid, tier):
             chk.model_violation("MCStore N=%d" % n, r)
         vlib.require_ok(r, "MCStore")
         chk.add_model("MCStore/Store", r, "N=%d MaxRuns=%d atomic pointer" % (n, mr))
+    # relative ages: finite state space, histories of every length
+    for n in (2, 3, 4) if tier == "quick" else (2, 3, 4, 5, 6):
+        cfg = ("CONSTANTS N = %d\n AtomicPointer = TRUE\nSPECIFICATION Spec\nINVARIANTS PointerNamesLatestCompleted CrashPreserves "
+               "NextRunPossible DistinctAges\nCHECK_DEADLOCK FALSE\n") % n
+        r = vlib.tlc("StoreAges", cfg, workers=2, timeout=900)
+        if r.violated:
+            chk.model_violation("StoreAges N=%d" % n, r)
+        vlib.require_ok(r, "StoreAges")
+        chk.add_model("StoreAges", r, "N=%d, relative ages: run histories of every length" % n)
     hs = histories(chk, tier, rng, pid)
     def one(ih):
         i, (n, h) = ih
